@@ -192,8 +192,13 @@ def gen_doc(
     if "HP" in tags:
         d.meta.append('##FORMAT=<ID=HP,Number=.,Type=String,Description="Phasing haplotype identifier">')
     if with_pq or "PQ" in tags:
-        d.meta.append('##FORMAT=<ID=PQ,Number=1,Type=Float,Description="Phasing quality">')
+        # PQ is declared Float by WhatsHap and Integer by the VCF 4.1/4.2 specification: both occur in real files
+        d.pq_type = rng.choice(["Float", "Float", "Integer"])
+        d.meta.append('##FORMAT=<ID=PQ,Number=1,Type=%s,Description="Phasing quality">' % d.pq_type)
         with_pq = True
+    if rng.random() < 0.1:
+        # another tool's definition of an ID that WhatsHap also knows (declared, not used in any record)
+        d.meta.append('##FORMAT=<ID=HS,Number=1,Type=String,Description="Haplotype score class of some caller">')
     d.phasing = phasing
     if kinds is None:
         kinds = ["snv"] * 6 + ["ins", "del", "mnp"] + (["multi", "symbolic", "noalt"] if hostile else [])
@@ -269,7 +274,7 @@ def gen_doc(
                             rng.shuffle(order)
                             hp = ",".join("%d-%d" % (block, o) for o in order)
                         if with_pq and rng.random() < 0.5:
-                            pq = rng.choice(["10", "23.5", "99"])
+                            pq = rng.choice(["10", "23.5", "99"] if getattr(d, "pq_type", "Float") == "Float" else ["10", "23", "99"])
                     elif hostile and rng.random() < 0.1 and p >= 2 and phasing != "HP":
                         # phased genotype without PS (e.g. homozygous 1|1 or stray het 0|1)
                         if not is_het or phasing is None or phasing == "PS":
@@ -346,11 +351,14 @@ def hostilize(rng, doc, prephase=None, allow_missing=True):
         extra.append('##FORMAT=<ID=PS,Number=1,Type=Integer,Description="Phase set identifier">')
     if prephase == "HP":
         extra.append('##FORMAT=<ID=HP,Number=.,Type=String,Description="Phasing haplotype identifier">')
+    pq_type = rng.choice(["Float", "Float", "Integer"])
     if rng.random() < 0.3:
-        extra.append('##FORMAT=<ID=PQ,Number=1,Type=Float,Description="Phasing quality">')
+        extra.append('##FORMAT=<ID=PQ,Number=1,Type=%s,Description="Phasing quality">' % pq_type)
         with_pq = True
     else:
         with_pq = False
+    if rng.random() < 0.1:
+        extra.append('##FORMAT=<ID=HS,Number=1,Type=String,Description="Haplotype score class of some caller">')
     doc.meta = doc.meta[:1] + extra + doc.meta[1:]
     new = []
     block = {}
@@ -425,7 +433,7 @@ def hostilize(rng, doc, prephase=None, allow_missing=True):
                     call["HP"] = ",".join("%d-%d" % (block[key], o) for o in order)
                     use_hp = True
                 if with_pq and rng.random() < 0.5:
-                    call["PQ"] = "23.5"
+                    call["PQ"] = "23.5" if pq_type == "Float" else "23"
                     use_pq = True
             elif het and rng.random() < 0.15:
                 call["GT"] = "/".join(reversed(al))
